@@ -127,6 +127,9 @@ func solveAll(obls []*Obligation, workDir string, timeoutS, seed, workers int, s
 				if len(txt) > 4<<20 {
 					o.Answer = "too-large"
 					o.Status = "failed"
+					if os.Getenv("GOVC_KEEP_LARGE") != "" {
+						os.WriteFile(filepath.Join(workDir, sanitize(o.Name)+".smt2"), []byte(txt), 0o644)
+					}
 					continue
 				}
 				file := filepath.Join(workDir, sanitize(o.Name)+".smt2")
